@@ -742,7 +742,7 @@ func (s *seedStream) Read(p []byte) (int, error) {
 var Prop = &harness.Prop{
 	ID:          "C06",
 	Level:       "model_checking",
-	Rule:        "configuration space enumerated as a product: server mode {GMSSL-only, auto-switch, TLS-only, Go crypto/tls server} x client {library GMSSL client, library TLS client, Go crypto/tls client} x client/server suite lists (9 each incl. ECDHE-only and mixed orders) x PreferServerCipherSuites x 5 ClientAuth policies x client certificate {absent, trusted, untrusted} x certificates static / callbacks x tickets on/off x TLS versions {default, 1.0, 1.1, 1.2} x {ECDSA, RSA} server certificate; each configuration runs real endpoints over the deterministic wire; a 60-line negotiation model predicts complete/must-fail, version and suite; both ends' ConnectionState, exported keying material, peer certificates and delivered bytes are compared; every captured GMSSL session is decoded by an independent GM/T 0024 record/PRF/Finished implementation (master secret re-derived from the pre-master secret decrypted with the reference SM2). Active reference peer: the library in each role against gmref (an independent GM/T 0024 endpoint) for both suites x GMSSL-only/auto-switch x 5 ClientAuth policies x client certificate present/absent x the peer's handshake messages cut into records of 1, 7, 100 bytes or unfragmented; both complete exactly when the policy allows, gmref verifies the library's ServerKeyExchange / CertificateVerify signatures and Finished, 3 KB / 70 KB payloads arrive intact. Payload sizes 2^k-72..2^k+8 (k = 9..14) in each direction between the library and the reference peer. Seed sweeps: the same configuration under 1536 (thorough 6144) deterministic random streams for TLS 1.2 ECDHE P-256 between two library endpoints and a quarter of that against crypto/tls in each role and for GMSSL against the reference peer in each role, so that value-dependent steps of the key exchange (coordinates with leading zero bytes, about 1 in 256) occur several times. Long connections: 600 small writes in each direction (more than 512 protected records per direction) for both GMSSL suites (independently decoded) and for TLS 1.2 / TLS 1.0 against crypto/tls in each role. Data phase: all write sequences up to the depth over 8 sizes x 2 directions with reader buffers {1,7,4096}. states = distinct configurations; transitions = sessions.",
+	Rule:        "configuration space enumerated as a product: server mode {GMSSL-only, auto-switch, TLS-only, Go crypto/tls server} x client {library GMSSL client, library TLS client, Go crypto/tls client} x client/server suite lists (9 each incl. ECDHE-only and mixed orders) x PreferServerCipherSuites x 5 ClientAuth policies x client certificate {absent, trusted, untrusted} x certificates static / callbacks x tickets on/off x TLS versions {default, 1.0, 1.1, 1.2} x {ECDSA, RSA} server certificate; each configuration runs real endpoints over the deterministic wire; a 60-line negotiation model predicts complete/must-fail, version and suite; both ends' ConnectionState, exported keying material, peer certificates and delivered bytes are compared; every captured GMSSL session is decoded by an independent GM/T 0024 record/PRF/Finished implementation (master secret re-derived from the pre-master secret decrypted with the reference SM2). Active reference peer: the library in each role against gmref (an independent endpoint with a GM/T 0024 profile and a TLS 1.2 RSA-key-exchange profile) for both suites of each profile x GMSSL-only/auto-switch x 5 ClientAuth policies x client certificate present/absent x the peer's handshake messages cut into records of 1, 7, 100 bytes or unfragmented; both complete exactly when the policy allows, gmref verifies the library's ServerKeyExchange / CertificateVerify signatures and Finished, 3 KB / 70 KB payloads arrive intact. Payload sizes 2^k-72..2^k+8 (k = 9..14) in each direction between the library and the reference peer. Seed sweeps: the same configuration under 1536 (thorough 6144) deterministic random streams for TLS 1.2 ECDHE P-256 between two library endpoints and a quarter of that against crypto/tls in each role and for GMSSL against the reference peer in each role, so that value-dependent steps of the key exchange (coordinates with leading zero bytes, about 1 in 256) occur several times. Long connections: 600 small writes in each direction (more than 512 protected records per direction) for both GMSSL suites (independently decoded) and for TLS 1.2 / TLS 1.0 against crypto/tls in each role. Data phase: all write sequences up to the depth over 8 sizes x 2 directions with reader buffers {1,7,4096}. states = distinct configurations; transitions = sessions.",
 	Assumptions: []string{"Go's crypto/tls is the independent implementation for TLS 1.0-1.2 (both roles)", "gmrec (independent decoder) is built on refsm2/3/4; it covers the two ECC suites", "the ECDHE-SM2 suites are not implemented by the library: the model never predicts them as an outcome"},
 	Bounds: func(tier string) string {
 		if tier == "thorough" {
@@ -765,6 +765,7 @@ var Prop = &harness.Prop{
 		u = append(u, tlsUnit(full), crossUnit())
 		for _, lc := range []bool{true, false} {
 			u = append(u, refInteropUnit(lc, cbc), refInteropUnit(lc, gcm), refSizesUnit(lc, cbc), refSizesUnit(lc, gcm))
+			u = append(u, refInteropUnit(lc, gmref.SuiteAESCBC), refInteropUnit(lc, gmref.SuiteAESGCM), refSizesUnit(lc, gmref.SuiteAESCBC), refSizesUnit(lc, gmref.SuiteAESGCM))
 		}
 		for k := 0; k < 6; k++ {
 			u = append(u, manyRecordsUnit(k))
